@@ -46,6 +46,7 @@ type Trace05 struct {
 var libLevels = []qrdec.ErrorCorrectionLevel{qrdec.ErrorCorrectionLevel_L, qrdec.ErrorCorrectionLevel_M, qrdec.ErrorCorrectionLevel_Q, qrdec.ErrorCorrectionLevel_H}
 
 type symbol05 struct {
+	mask    int // the mask the symbol really carries (the writer's, not the hint)
 	tr      *Trace05
 	m       [][]bool // [y][x], no quiet zone
 	qrLay   *qrref.Layout
@@ -136,6 +137,7 @@ func send(tr *Trace05) (s *symbol05, skip string, f *fail) {
 		}
 		s.qrLay = qrref.LayoutOf(tr.V)
 		s.qrBlk = qrref.BlocksOf(tr.V, tr.Level)
+		s.mask = tr.Mask
 		if tr.Sender == "reference" {
 			s.m = qrref.BuildSymbol(tr.V, tr.Level, tr.Mask, []byte(tr.Text))
 			if s.m == nil {
@@ -154,6 +156,9 @@ func send(tr *Trace05) (s *symbol05, skip string, f *fail) {
 		bm := code.GetMatrix()
 		if bm.GetWidth() != s.qrLay.N {
 			return nil, "writer chose another version", nil
+		}
+		if m := code.GetMaskPattern(); m >= 0 && m <= 7 {
+			s.mask = m // (a writer that ignores the hint is not C05's business; the layout must follow the symbol)
 		}
 		s.m = make([][]bool, bm.GetHeight())
 		for y := range s.m {
@@ -210,7 +215,7 @@ func (s *symbol05) blockWords(m [][]bool) ([][]int, []int) {
 	get := func(x, y int) bool { return m[y][x] }
 	if s.tr.Sym == "qr" {
 		b := s.qrBlk
-		words := qrref.Deinterleave(b, s.qrLay.ReadStream(get, s.tr.Mask))
+		words := qrref.Deinterleave(b, s.qrLay.ReadStream(get, s.mask))
 		ecs := make([]int, b.N)
 		for i := range ecs {
 			ecs[i] = b.EC
